@@ -628,6 +628,27 @@ theorem recursive_working_view_first (ctes temps : List String) (r n : String) (
 theorem lazy_eval_agrees (lw : Nat) (r : Row) (c : CondE) (h : condPure c = true) :
     evalCondE lw r c = .ok (evalCond lw r c) := evalCondE_pure lw r c h
 
+/-! ## select list: every item on its own -/
+
+/-- the k-th column of a select list is what its k-th item yields when it is the only item: no item sees
+    another one (two items that differ only in the letter case of a string literal are two columns) -/
+theorem select_item_independent (items : List Item) (rows : List Row) (k : Nat) (it : Item) (hk : items[k]? = some it) :
+    (selectRows items rows).map (fun r => r[k]?) = (selectRows [it] rows).map (fun r => r[0]?) := by
+  unfold selectRows
+  simp only [List.map_map]
+  apply List.map_congr_left
+  intro r _
+  simp [Function.comp, List.getElem?_map, hk]
+
+/-- number and order of the records are those of the source; every record has one cell per item -/
+theorem select_rows_shape (items : List Item) (rows : List Row) :
+    (selectRows items rows).length = rows.length ∧ ∀ r, r ∈ selectRows items rows → r.length = items.length := by
+  unfold selectRows
+  refine ⟨by simp, ?_⟩
+  intro r hr
+  obtain ⟨x, _, rfl⟩ := List.mem_map.mp hr
+  simp
+
 /-! ## the model against the source as it stands (lean/Csvq/Gen/RelFacts.lean, regenerated on every run)
 
   extract/relfacts translates `Header.FieldIndex` (loop body and tail), `InStrSliceWithCaseInsensitive`, the keep
@@ -690,8 +711,9 @@ theorem gen_fieldIndex_eq_model (h : List HField) (view : Option String) (name :
     `SearchIndex`, `ContainsObject`, `Header.Update`, are the reviewed statements -/
 theorem gen_field_index_frame_eq_ref :
     Gen.fieldIndexPrelude = Ref.fieldIndexPrelude ∧ Gen.searchIndexBody = Ref.searchIndexBody ∧
-    Gen.containsObjectBody = Ref.containsObjectBody ∧ Gen.headerUpdateBody = Ref.headerUpdateBody :=
-  ⟨rfl, rfl, rfl, rfl⟩
+    Gen.containsObjectBody = Ref.containsObjectBody ∧ Gen.headerUpdateBody = Ref.headerUpdateBody ∧
+    Gen.equalFieldIdentifiersBody = Ref.equalFieldIdentifiersBody :=
+  ⟨rfl, rfl, rfl, rfl, rfl⟩
 
 /-- `View.Fix` does to every header field what the reviewed list says … -/
 theorem gen_fix_effects_eq_ref :
@@ -754,6 +776,10 @@ theorem gen_right_swap_eq_ref : Gen.outerRightSwaps = Ref.outerRightSwaps ∧ Ge
 theorem gen_join_bodies_eq_ref :
     Gen.crossJoinBody = Ref.crossJoinBody ∧ Gen.innerJoinBody = Ref.innerJoinBody ∧
     Gen.outerJoinBody = Ref.outerJoinBody ∧ Gen.filterBody = Ref.filterBody := ⟨rfl, rfl, rfl, rfl⟩
+
+/-- `View.evalColumn`: only references and analytic functions are looked up among the columns already there; every
+    other item is calculated anew for every record -/
+theorem gen_eval_column_eq_ref : Gen.evalColumnBody = Ref.evalColumnBody := rfl
 
 /-- `CalcMinimumRequired` never asks for less than one record per worker (the chunking itself is universally
     quantified in the theorems above, so its value cannot change a result) -/
